@@ -22,6 +22,9 @@ TOO_LONG = b"Log message too long to be stored in the blackbox.  Maximum is QB_L
 M64 = (1 << 64) - 1
 
 
+DIRECTIVE = re.compile(rb"%[-+ #0-9*]*(?:\.[0-9*]*)?(ll|l)?([diouxXcs])")
+
+
 def u32(x):
     return struct.pack("<I", x & 0xFFFFFFFF)
 
@@ -31,7 +34,9 @@ def ser_msg(fmt, args=()):
     """qb_vsnprintf_serialize for the simple directives used here: format, NUL, arguments."""
     out = bytearray(fmt) + b"\0"
     it = iter(args)
-    for m in re.finditer(rb"%[-+ #0-9]*(ll|l)?([diouxXcs])", fmt):
+    for m in re.finditer(DIRECTIVE, fmt):
+        for _ in range(m.group(0).count(b"*")):       # `*` width / precision: an int stored in front
+            out += struct.pack("<i", next(it))
         a = next(it)
         if m.group(2) == b"s":
             out += a + b"\0"
@@ -47,8 +52,12 @@ def ser_msg(fmt, args=()):
 def py_text(fmt, args=()):
     """what printf makes of (fmt, args), for the same simple directives"""
     def conv(m, it=iter(args)):
-        a = next(it)
         spec = m.group(0).decode()
+        while "*" in spec:                             # negative precision = none; negative width = left-justified
+            v = next(it)
+            i = spec.index("*")
+            spec = (spec[:i - 1] + spec[i + 1:]) if (v < 0 and spec[i - 1] == ".") else (spec[:i] + str(v) + spec[i + 1:])
+        a = next(it)
         k = spec[-1]
         spec = spec.replace("ll", "").replace("l", "")
         if k == "s":
@@ -65,7 +74,7 @@ def py_text(fmt, args=()):
         if k == "i":
             spec = spec[:-1] + "d"
         return (spec % a).encode()
-    return re.sub(rb"%[-+ #0-9]*(ll|l)?([diouxXcs])", conv, fmt)
+    return re.sub(DIRECTIVE, conv, fmt)
 
 
 def record(prio, line, tags, sec, nsec, fn, msg, newfmt=True, fn_size=None, msg_len=None, fn_nul=True):
@@ -161,9 +170,14 @@ FORMATS = {
     2: [b"%s", b"[%s]", b"%10s|", b"%-10s|", b"name: %s\n"],
     3: [b"%d:%s", b"%4d [%s]"],
     4: [b"%lld", b"%llu", b"%llx", b"%20lld|"],
-    5: [b"%s=%d", b"%s (%x)"],
+    5: [b"%s=%d", b"%s (%x)", b"node %-12s state %d", b"%10s|%d", b"%-3s:%x;", b"%40s %u"],
     6: [b"%d,%d", b"%u-%u", b"%c%c"],
     7: [b"%ld/%d", b"%lx %o"],
+    # a `%s` whose printed length differs from its stored length (field width, width or precision taken from
+    # the arguments) FOLLOWED by further conversions: everything after it must still be decoded from the right bytes
+    8: [b"[%10s] [%s]", b"%-8s %-8s|", b"%s/%s", b"%-20s%s", b"%3s%3s."],
+    9: [b"%.*s|%d", b"%*s|%d", b"%-*s<%x>", b"a %.*s b %u c"],
+    10: [b"%-8s %-8d %5s %d", b"%s:%d %12s:%d"],
 }
 
 
@@ -199,7 +213,7 @@ def rand_time(rng):
 
 def rand_rec(rng):
     """(prio, line, tags, sec, nsec, fn, shape, fmt, args) with args as python values"""
-    shape = rng.choice([0, 1, 1, 2, 2, 3, 4, 5, 6, 7])
+    shape = rng.choice([0, 1, 1, 2, 2, 3, 4, 5, 5, 6, 7, 8, 8, 9, 9, 10])
     fmt = rng.choice(FORMATS[shape])
     if shape == 0:
         if b"%s" in fmt:
@@ -220,8 +234,14 @@ def rand_rec(rng):
         args = [rand_word(rng), rand_int(rng)]
     elif shape == 6:
         args = [rng.randrange(33, 127), rng.randrange(33, 127)] if b"%c" in fmt else [rand_int(rng), rand_int(rng)]
-    else:
+    elif shape == 7:
         args = [rand_int(rng, 64), rand_int(rng)]
+    elif shape == 8:
+        args = [rand_word(rng), rand_word(rng)]
+    elif shape == 9:
+        args = [rng.choice([0, 1, 2, 3, 5, 8, 12, 16, 30, 64]), rand_word(rng), rand_int(rng)]
+    else:
+        args = [rand_word(rng), rand_int(rng), rand_word(rng), rand_int(rng)]
     sec, nsec = rand_time(rng)
     prio = rng.choice([0, 1, 2, 3, 4, 5, 6, 7, 8, 8, 9, 200, 255]) if rng.random() < 0.3 else rng.randrange(0, 9)
     line = rng.choice([0, 1, 65535, 65536, 2 ** 32 - 1]) if rng.random() < 0.2 else rng.randrange(1, 5000)
@@ -305,6 +325,12 @@ INTERESTING32 = [0, 1, 2, 3, 4, 12, 13, 26, 27, 28, 33, 34, 35, 255, 256, 511, 5
                  4095, 4096, 4097, 8191, 8192, 0x7FFFFFFF, 0x80000000, 0xFFFFFFFE, 0xFFFFFFFF, MAGIC, DEAD]
 
 
+def near32(rng):
+    """a value just below 2^32: sums like `field + header size` computed in 32 bits wrap to something small"""
+    return (1 << 32) - rng.choice([1, 2, 3, 4, 8, 9, 12, 13, 16, 17, 20, 24, 25, 26, 27, 28, 29, 32, 33, 34, 35, 36, 37, 40, 41,
+                                   48, 64, 100, 512, 513, 1024, 1025, 4096]) if rng.random() < 0.7 else (1 << 32) - rng.randrange(1, 5000)
+
+
 def truncations(base, lengths):
     return [bytes(base[:n]) for n in lengths if n <= len(base)]
 
@@ -318,9 +344,10 @@ def header_corruptions(rng, base, count):
     stfull = len(base)
     W = D.ws
     ptr_vals = [W - 1, W, W + 1, 2 * W - 1, 2 * W, 2 * W + 1, 3 * W, stfull - 1, stfull, stfull + 1, stfull // 4,
-                0xFFFFFFFF, 0x80000000, st] + INTERESTING32
+                0xFFFFFFFF, 0x80000000, st] + INTERESTING32 + [near32(rng) for _ in range(6)] + [(1 << 32) - W, (1 << 32) - W + 1]
     ws_vals = [0, 1, 2, 3, 4, 5, W - 1, W + 1, W // 2, W // 2 + 1, 2 * W, stfull // 4, stfull // 4 + 1, stfull // 4 - 1,
-               (stfull - 20) // 4, W - PAGEW, W + PAGEW, 1023, 1025, 0xFFFFFFFF, 0x40000000]
+               (stfull - 20) // 4, W - PAGEW, W + PAGEW, 1023, 1025, 0xFFFFFFFF, 0x40000000, 0x3FFFFFFF, 0x40000001, 0x80000000,
+               0xC0000000] + [near32(rng) for _ in range(4)]
     for _ in range(count):
         k = rng.random()
         b = bytearray(base)
@@ -332,7 +359,7 @@ def header_corruptions(rng, base, count):
                 mw = (rp + 1) % W
                 b = poke(b, D.d + 4 * mw, u32(MAGIC))
                 if rp < W and rng.random() < 0.7:
-                    b = poke(b, D.d + 4 * rp, u32(rng.choice([0, 27, 28, 40, 100, 1024, 1025, 0xFFFFFFFF])))
+                    b = poke(b, D.d + 4 * rp, u32(rng.choice([0, 27, 28, 40, 100, 1024, 1025, 0xFFFFFFFF, near32(rng)])))
         elif k < 0.55:
             wp = rng.choice(ptr_vals) if rng.random() < 0.8 else rng.getrandbits(32)
             b = set_hdr(b, D.new, wp=wp)
@@ -367,7 +394,8 @@ def chunk_corruptions(rng, base, count):
         w, sz = rng.choice(D.chunks[:3]) if rng.random() < 0.7 else rng.choice(D.chunks)
         k = rng.random()
         if k < 0.55:
-            v = rng.choice(INTERESTING32 + [sz - 1, sz + 1, sz + 4, sz - 4, 4 * D.ws, 4 * D.ws - 8, 4 * D.ws - 12])
+            v = rng.choice(INTERESTING32 + [sz - 1, sz + 1, sz + 4, sz - 4, 4 * D.ws, 4 * D.ws - 8, 4 * D.ws - 12] +
+                           [near32(rng) for _ in range(8)])
             b = poke(b, D.d + 4 * w, u32(v))
         elif k < 0.75:
             b = poke(b, D.d + 4 * ((w + 1) % D.ws), u32(rng.choice([DEAD, ALLOC, 0, MAGIC ^ 1, MAGIC])))
@@ -406,13 +434,15 @@ def record_corruptions(rng, count, newfmt=None):
         if k < 0.22:      # fn_size
             total = 17 + len(fn) + 1 + T + len(msg)
             kw["fn_size"] = rng.choice([0, 1, len(fn), len(fn) + 2, total - 27, total - 26, total - 28, total - 27 - 8, total - 17 - T,
-                                        total - 17 - T + 1, total, 1024, 1024 - 27, 0xFFFFFFFF, 0xFFFFFFE5, 0x80000000, rng.getrandbits(32)])
+                                        total - 17 - T + 1, total, 1024, 1024 - 27, 0xFFFFFFFF, 0xFFFFFFE5, 0x80000000, rng.getrandbits(32)] +
+                                       [near32(rng) for _ in range(8)])
         elif k < 0.30:    # function without terminating NUL
             kw["fn_nul"] = False
             fn = rng.choice([b"main", b"Z" * 200, b"Z" * 960])
             kw["fn_size"] = len(fn)
         elif k < 0.52:    # msg_len
-            kw["msg_len"] = rng.choice([0, 1, 2, len(msg) - 1, len(msg) + 1, 511, 512, 513, 600, 0xFFFFFFFF, 0x80000000, rng.getrandbits(32)])
+            kw["msg_len"] = rng.choice([0, 1, 2, len(msg) - 1, len(msg) + 1, 511, 512, 513, 600, 0xFFFFFFFF, 0x80000000, rng.getrandbits(32)] +
+                                       [near32(rng) for _ in range(6)])
         elif k < 0.80:    # message body
             msg = rng.choice(NASTY_MSGS)
             if rng.random() < 0.3:
@@ -459,7 +489,7 @@ def random_damage(rng, base, count):
             else:
                 off = rng.randrange(0, len(b))
             n = rng.choice([1, 1, 2, 4, 4, 8])
-            v = bytes(rng.getrandbits(8) for _ in range(n)) if rng.random() < 0.6 else u32(rng.choice(INTERESTING32))[:n]
+            v = bytes(rng.getrandbits(8) for _ in range(n)) if rng.random() < 0.6 else u32(rng.choice(INTERESTING32 + [near32(rng)]))[:n]
             b = poke(b, off, v)
         if rng.random() < 0.5:
             b = set_hdr(b, D.new)             # keep the header hash consistent
